@@ -58,7 +58,8 @@ def absorb(rep, case, res, max_traces=[3]):
     for v in res.get("viol", []):
         rep.violation(v["sig"], v["what"], {"case": case, "detail": v.get("detail")})
     for r in res.get("inconc", []):
-        rep.inconc(r, None)
+        brief = {k: case[k] for k in ("driver", "workers", "n", "sname", "name", "args", "plan", "family", "policy", "content", "extra", "fs", "seed") if k in case}
+        rep.inconc(r, json.loads(json.dumps(brief, default=str)) if brief else None)
     for k, n in res.get("counters", {}).items():
         rep.count(k, n)
     if res.get("trace") and max_traces[0] > 0:
